@@ -958,6 +958,11 @@ func (P *Program) registerVHDB() {
 		fr.in.extra["temp-paths"] = n + 1
 		return fmt.Sprintf("/vhdb-model/%d.sqlite", n)
 	})
+	P.reg(VHDB+".TempRelPath", func(fr *frame, args []value) value {
+		n, _ := fr.in.extra["temp-paths"].(int)
+		fr.in.extra["temp-paths"] = n + 1
+		return fmt.Sprintf("vh-%d%s", n, fr.in.goStr(args[0], "suffix"))
+	})
 	P.reg(VHDB+".MigrationsDir", func(fr *frame, args []value) value { return "/vhdb-model/migrations" })
 	P.reg("(*"+DBP+".sqLiteAdapter).connect", func(fr *frame, args []value) value {
 		in := fr.in
